@@ -31,6 +31,17 @@ def base_world(seed, i):
         c14.only_in_export(w, vlib.rng_for(seed, "C17/src/%d" % i))
         return w
     w = runprops.world_for("pres", seed, i, allow_shared=False)
+    if i % 5 == 2 and w.torrents:
+        # a directory full of same-length decoys (more than any plausible cap on candidates), listed next to the real data
+        import worldgen
+        rng = vlib.rng_for(seed, "C17/bulk/%d" % i)
+        fs = [f for t in w.torrents for f in t.files if not f.pad and f.length > 0]
+        if fs:
+            f = rng.choice(fs)
+            w.put_dir((b"bulk",))
+            for k in range(70):
+                w.put_file((b"bulk", b"decoy%02d" % k), bytes((b + k + 1) % 256 for b in f.content))
+            w.scans = [(b"bulk",)] + list(w.scans)
     if i % 5 == 3 and w.torrents:
         # a content twin: the same name, layout and pieces with one more (uninterpreted) key in the info dictionary - another
         # info-hash, another export subtree; both must be recovered, however the list is presented
